@@ -70,6 +70,9 @@ func replayStreamFromChan(clck clock.Clock, points <-chan edge.PointMessage, col
 	return nil
 }
 
+// maxRecordedPointSize bounds the length of one line (db, rp or point) of a stream recording.
+const maxRecordedPointSize = 64 * 1024 * 1024
+
 func readPointsFromIO(data io.ReadCloser, points chan<- edge.PointMessage, precision string) error {
 	defer data.Close()
 	defer close(points)
@@ -77,6 +80,8 @@ func readPointsFromIO(data io.ReadCloser, points chan<- edge.PointMessage, preci
 	now := time.Time{}
 
 	in := bufio.NewScanner(data)
+	// A recorded point can be longer than the scanner's default token limit of 64KiB.
+	in.Buffer(make([]byte, 0, 64*1024), maxRecordedPointSize)
 	for in.Scan() {
 		db := in.Text()
 		if !in.Scan() {
